@@ -159,7 +159,7 @@ theorem chooseCompartments_default_total (taken : List String) :
   exact ⟨r, by simp only [chooseCompartments, hf, if_true, hr']⟩
 
 theorem writeModel_ok {m : PyModel} {o : Option (List (String × Rat))} {dc : SDocC}
-    (h : writeModel m o = .ok dc) : ∃ cs, chooseCompartments m.names o = .ok cs ∧ exportModelC m cs = .ok dc := by
+    (h : writeModel m o = .ok dc) : ∃ cs, chooseCompartments m.names o = .ok cs ∧ exportModelC m.escArgs cs = .ok dc := by
   unfold writeModel at h
   cases hc : chooseCompartments m.names o with
   | error e => simp [hc, bind, Except.bind] at h
@@ -174,5 +174,29 @@ theorem names_sub_refTaken (m : PyModel) (cs : List (String × Rat)) : ∀ n ∈
   split
   · exact List.mem_append_left _ hn
   · exact hn
+
+
+/-! ### `escArgs` changes the arguments of the functions only -/
+
+theorem escArgs_names (m : PyModel) : m.escArgs.names = m.names ∧ m.escArgs.vars.map (·.1) = m.vars.map (·.1) := by
+  unfold PyModel.escArgs
+  split
+  · simp [PyModel.names, Function.comp_def]
+  · exact ⟨rfl, rfl⟩
+
+theorem escArgs_vars_nil (m : PyModel) : m.escArgs.vars = [] ↔ m.vars = [] := by
+  have h := (escArgs_names m).2
+  constructor
+  · intro h0; rw [h0] at h; simpa using h.symm
+  · intro h0; rw [h0] at h; simpa using h
+
+theorem PyFn.mapArgs_id (f : PyFn) : f.mapArgs (fun n => n) = f := by
+  cases f; simp [PyFn.mapArgs]
+
+theorem PyInit.mapArgs_id (i : PyInit) : i.mapArgs (fun n => n) = i := by
+  cases i <;> simp [PyInit.mapArgs, PyFn.mapArgs_id]
+
+theorem PyCoef.mapArgs_id (c : PyCoef) : c.mapArgs (fun n => n) = c := by
+  cases c <;> simp [PyCoef.mapArgs, PyFn.mapArgs_id]
 
 end Mxl.C08
